@@ -85,8 +85,13 @@ func (vc *VC) evalMulti(s *State, e ast.Expr, want int) []*Term {
 	case *ast.CompositeLit:
 		return []*Term{vc.evalCompositeLit(s, x)}
 	case *ast.FuncLit:
-		// function value: opaque
-		vc.prog.Abstracted["func literal used as value at "+vc.posStr(x.Pos())] = true
+		// function value: opaque for the code that receives it; its body is verified as a procedure of its own when the
+		// contract has callback clauses (stdfs.go)
+		if vc.fn != nil && vc.fn.Spec != nil && len(vc.fn.Spec.CallbackEnsures) > 0 && len(vc.frames) == 1 && !vc.quiet {
+			vc.runCallback(s, x)
+		} else {
+			vc.prog.Abstracted["func literal used as value at "+vc.posStr(x.Pos())] = true
+		}
 		c := Fresh("funclit", SInt)
 		s.assume(Gt(c, IntLit(0)))
 		return []*Term{c}
